@@ -18,5 +18,5 @@ def run(ctx):
         ctx, "C25",
         mc_cfgs=[ctx.q("c25", "c25_thorough")],
         neg_cfgs=[("neg_co_overwrite", "Inv_C25"), ("neg_co_follow_symlink", "Inv_C25"), ("finding_unsorted", "Inv_C25")],
-        gen_cfgs=[("gen_c25", ctx.q(300, 4000))],
-        n_random=ctx.q(300, 6000), focus="checkout")
+        gen_cfgs=[("gen_c25", ctx.q(300, 2400))],
+        n_random=ctx.q(300, 4000), focus="checkout")
